@@ -31,6 +31,9 @@ type Expectation struct {
 	BaseBroken  string   // non-empty: compaction output under the main name is incomplete
 	Role        string   // role of the in-flight / last torn operation
 	Compacting  bool     // a compaction temp file exists in the image
+	// AckedWithoutMain: the image has no storage file under the swamp's name although that many
+	// entries (global index) were acknowledged by a Sync / Close before the crash point (set by the caller)
+	AckedWithoutMain int
 }
 
 // Image builds the image of a crash point.
@@ -216,7 +219,22 @@ func Judge(path, name string, h *History, ex Expectation, fresh []Ent) Verdict {
 	st := s.State()
 	v := Verdict{Loaded: st, MatchJ: -1}
 	if !ex.MainPresent {
-		if len(st) != 0 {
+		if ex.AckedWithoutMain > 0 {
+			// the swamp's file is gone although data had been acknowledged as durable: only a state that
+			// contains all of it is acceptable (some other file would have to carry it)
+			okState := false
+			for j := ex.AckedWithoutMain; j <= len(ents); j++ {
+				if Equal(st, Apply(map[string]string{}, ents[:j])) {
+					okState = true
+					break
+				}
+			}
+			if !okState {
+				v.Class = "storage-file-missing-after-crash"
+				v.Detail = fmt.Sprintf("the image holds no file under the swamp's name although %d entries had been acknowledged by Sync/Close before the crash; loaded %s, the acknowledged state is %s",
+					ex.AckedWithoutMain, keysOf(st), keysOf(Apply(map[string]string{}, ents[:ex.AckedWithoutMain])))
+			}
+		} else if len(st) != 0 {
 			v.Class, v.Detail = "phantom-data", "no storage file in the image but loaded "+keysOf(st)
 		}
 		_ = s.Chron.Close()
